@@ -320,3 +320,9 @@ Definition svc_prefix (me : N) (evs : list bev) (svc : N) (pf : prefix) : Prop :
 (* the peer is configured and its node selectors admit this node *)
 Definition session_expected (me : N) (evs : list bev) (c : pcfg) : Prop :=
   In c (last_cfg evs) /\ should_run (last_labels me evs) c = true.
+
+(* ServiceBGPStatusReconciler (internal/k8s/controllers/bgp_status_controller.go): the ServiceBGPStatus of
+   (service, this node) after a reconciliation is a function of PeersForService alone, NOT of what was stored
+   before: no resource when the set is empty, else a resource listing exactly its elements *)
+Definition published_status (active : list N) : option (list N) :=
+  match active with [] => None | l => Some l end.
